@@ -2,15 +2,16 @@
 import itertools
 import random
 from vf import Case
-from gen import constants
+from gen import constants, cloops
 
 ID = "C12"
 DRIVER = "drv_streams"
 HARNESS = "h_streams"
 QUICK_LEVEL = "thorough"      # the larger case set costs only seconds
 THOROUGH_SEEDS = 4
-GEN = [constants.gen]
+GEN = [constants.gen, cloops.slip_gen]
 TIE = ['Ufw.Tie.Slip']
+tie_modules = cloops.slip_tie_modules     # obligations over the functions of rfc1055.c the translator delivered
 ALPHA = ["c0", "db", "dc", "dd", "41"]
 RULE = ("every octet string up to a length bound over {END, ESC, ESC_END, ESC_ESC, 0x41} (quick: <= 5, thorough: <= 7, longer ones "
         "sampled) used (a) as payload: encode with the library, decode the result followed by a trailer, both modes; (b) as raw decoder "
@@ -20,10 +21,16 @@ RULE = ("every octet string up to a length bound over {END, ESC, ESC_END, ESC_ES
         "contains at least one octet of input; distinct = distinct operation text.")
 EXHAUSTIVE = {"quick": True, "thorough": True}
 ASSUMPTIONS = [
-    "lean/Ufw/Model/Slip.lean is a hand transcription of src/rfc1055.c (decoder as a one-octet transition function) tied to the code by the correspondence run",
+    "tie A: every function of src/rfc1055.c (context_init, open, close, encode_octet, decode_octet, encode, transition, decode) is translated from clang's "
+    "typed AST on every run (tools/gen/cloops.py -> Gen/SlipFns.lean: switch as an if-chain, do-while(0), break, the context as its two fields, source and "
+    "sink as the prelude's scripts); proved over the translation: gen_rfc1055_context_init and gen_rfc1055_encode - for every source and sink whose "
+    "failures are negative codes the run of the C encoder ends within one round per answer of the source and is the model's run (same octets into the sink, "
+    "same return, source left at the same place) - (Ufw.Tie.SlipFns.*); the translated decoder is compared by running only",
+    "tie B: lean/Ufw/Model/Slip.lean is a hand transcription of src/rfc1055.c (decoder as a one-octet transition function) tied to the code by the correspondence run",
     "sources and sinks are octet-style drivers owned by the harness (chunk adaptation is C17's subject); a source answering 0 is outside the model",
 ]
-TRUSTED = ["correspondence harness harness/h_streams.c + tools/lib/vf.py (return codes incl. exact errno, decoder state after the call, "
+TRUSTED = ["translator tools/gen/cloops.py + prelude lean/Ufw/Tie/CPre.lean (meaning of loads, stores, casts, fuel, the source and sink scripts)",
+           "correspondence harness harness/h_streams.c + tools/lib/vf.py (return codes incl. exact errno, decoder state after the call, "
            "octets consumed from the source, octets handed to the sink)"]
 DESIGN_REF = "DESIGN.md section 0.2 (as built) and section 8, C12"
 TECHNIQUE = "Lean 4 proofs by induction over payloads / streams on a transition-function model of the SLIP codec (round trip, transparency, bound, concatenation, resynchronisation in both modes, error pass-through) + differential correspondence on all short strings over the control alphabet"
